@@ -404,6 +404,16 @@ class MultiFit(FitBase):
             for _par_name, _par_limits in _previous_fitter.limited_parameters.items():
                 self._fitter.limit_parameter(_par_name, _par_limits)
 
+    def _get_axis_kwargs(self, fit_index, axis):
+        """The axis keyword for adding an error to a single fit: only XYFit has more than one axis."""
+        from ..xy import XYFit
+
+        if isinstance(self._fits[fit_index], XYFit):
+            return dict(axis=axis)
+        if axis not in (None, "y", 1):
+            raise ValueError("axis=%r is incompatible with fit %s because it is not an XYFit!" % (axis, fit_index))
+        return dict()
+
     def _add_error_object(self, error_object, reference, name=None, axis=None):
         from ..indexed import IndexedFit
         from ..xy import XYFit
@@ -784,14 +794,14 @@ class MultiFit(FitBase):
         """
         # TODO relative errors
         if isinstance(fits, int):
-            self._fits[fits].add_matrix_error(
+            return self._fits[fits].add_matrix_error(
                 err_matrix=err_matrix,
                 matrix_type=matrix_type,
-                axis=axis,
                 name=name,
                 err_val=err_val,
                 relative=relative,
                 reference=reference,
+                **self._get_axis_kwargs(fits, axis),
                 **kwargs,
             )
         else:
@@ -842,13 +852,13 @@ class MultiFit(FitBase):
         :rtype: str
         """
         if isinstance(fits, int):
-            self._fits[fits].add_error(
+            return self._fits[fits].add_error(
                 err_val=err_val,
                 name=name,
                 correlation=correlation,
                 relative=relative,
-                axis=axis,
                 reference=reference,
+                **self._get_axis_kwargs(fits, axis),
                 **kwargs,
             )
         else:
